@@ -31,6 +31,7 @@ def worker_env(ob, known_mode=None):
     env['PYTHONDONTWRITEBYTECODE'] = '1'
     env['PYTHONHASHSEED'] = '0'
     env['TDDA_TDDA_VERIF'] = '1'
+    env['VERIF_TIER'] = os.environ.get('VP_CURRENT_TIER', env.get('VERIF_TIER', 'quick'))
     env.pop('VP_PARAM', None)
     if ob.param is not None:
         env['VP_PARAM'] = json.dumps(ob.param)
@@ -109,6 +110,7 @@ def main(argv):
         return 1 if r.returncode else 0
     prop, tier = argv[0], (argv[1] if len(argv) > 1 else os.environ.get('VERIF_TIER', 'quick'))
     seed = int(os.environ.get('VERIF_SEED', '0'))
+    os.environ['VP_CURRENT_TIER'] = tier
     only = argv[2] if len(argv) > 2 else None
     if only and not os.environ.get('VERIF_EVIDENCE_DIR'):
         # a filtered run is a development aid: its partial evidence must not replace the property's evidence file
